@@ -825,6 +825,12 @@ func c20ConfigMap(data map[string]string) *corev1.ConfigMap {
 // c20Deliver computes the NodeSLOSpec for a node exactly like the reconciler does (getNodeSLOSpec on the handler's
 // cache) and returns the typed spec plus, per section, the flattened leaves of its JSON.
 func c20Deliver(h *SLOCfgHandlerForConfigMapEvent, node int) (*slov1alpha1.NodeSLOSpec, map[string]map[string]string, error) {
+	return c20DeliverOver(h, node, nil)
+}
+
+// c20DeliverOver: the same through the reconciler's UPDATE path: old is the spec of the node's existing NodeSLO (nil =
+// the NodeSLO is being created).
+func c20DeliverOver(h *SLOCfgHandlerForConfigMapEvent, node int, old *slov1alpha1.NodeSLOSpec) (*slov1alpha1.NodeSLOSpec, map[string]map[string]string, error) {
 	r := &NodeSLOReconciler{sloCfgCache: h}
 	n := &corev1.Node{ObjectMeta: metav1.ObjectMeta{Name: c20NodeNames[node]}}
 	if c20NodeLabels[node] != nil {
@@ -833,7 +839,7 @@ func c20Deliver(h *SLOCfgHandlerForConfigMapEvent, node int) (*slov1alpha1.NodeS
 			n.Labels[k] = v
 		}
 	}
-	spec, err := r.getNodeSLOSpec(n, nil)
+	spec, err := r.getNodeSLOSpec(n, old)
 	if err != nil {
 		return nil, nil, err
 	}
